@@ -132,6 +132,10 @@ fn dna_model(dna: &[u8], cfg: &crate::gen::GenCfg) -> ModelGame {
 pub fn case(ctx: &Ctx, kind: &str, params: &Value, counting: bool) -> Result<(), Fail> {
 	match kind {
 		"sweep" => check(ctx, &sweep_model(params["i"].as_u64().unwrap_or(0) as usize), "sweep", counting),
+		"fixture" => match fixture_model(&dna_param(params)) {
+			Some((_, m)) => check(ctx, &m, "fixture", counting),
+			None => Ok(()),
+		},
 		_ => check(ctx, &dna_model(&dna_param(params), &cfg_for(ctx)), "dna", counting),
 	}
 }
@@ -146,6 +150,16 @@ pub fn run(ctx: &Ctx) -> usize {
 	let cfg = cfg_for(ctx);
 	if run_dna(ctx, "dna", ctx.n(30_000, 1_500_000), dna_max(ctx), |dna, counting| check(ctx, &dna_model(dna, &cfg), "dna", counting)).is_some() {
 		violations += 1;
+	}
+	if fixture_count() > 0 {
+		if run_dna(ctx, "fixture", ctx.n(3_000, 150_000), 512, |dna, counting| match fixture_model(dna) {
+			Some((_, m)) => check(ctx, &m, "fixture", counting),
+			None => Ok(()),
+		})
+		.is_some()
+		{
+			violations += 1;
+		}
 	}
 	violations
 }
